@@ -21,6 +21,8 @@ def run_mutant(prop, path, old, new, timeout=None):
         importlib.import_module(m)
     obs = []
     for fspec in prop["functions"]:
+        if fspec.get("bounded_only"):
+            continue
         o, rep = r.generate(fspec)
         obs.extend(o)
     bad_fn = [f for f in r.functions if f["status"] != "ok"]
